@@ -32,3 +32,13 @@ func VerifMuxMatch(mux *ServeMux, q string, t uint16) Handler { return mux.match
 func VerifDefaultAccept(bits, qd, an, ns, ar uint16) MsgAcceptAction {
 	return defaultMsgAcceptFunc(Header{Bits: bits, Qdcount: qd, Ancount: an, Nscount: ns, Arcount: ar})
 }
+
+// VerifTsigVerify exposes tsigVerify with an explicit current time.
+func VerifTsigVerify(msg []byte, secret, requestMAC string, timersOnly bool, now uint64) error {
+	return tsigVerify(msg, tsigHMACProvider(secret), requestMAC, timersOnly, now)
+}
+
+// VerifTsigVerifyProvider exposes tsigVerify with a provider and an explicit current time.
+func VerifTsigVerifyProvider(msg []byte, p TsigProvider, requestMAC string, timersOnly bool, now uint64) error {
+	return tsigVerify(msg, p, requestMAC, timersOnly, now)
+}
